@@ -22,14 +22,14 @@ TRUSTED_BASE = [
 ASSUMPTIONS = ["number literals are within the exactly representable range |n| <= 2^53 and floats print without exponent (others are out of the property's stated range)"]
 TECHNIQUE = "generation of valid queries from the AST + lexical-variation renderer, validity decided by Coq-extracted grammar recognizer and typing judgement, differential against compile(); model correspondence; partial Coq theorems"
 LEVEL = "proof"
-LEVEL_TEXT = ("Proved: the parser half - C05_complete_tokens: every token sequence the typed token grammar derives is accepted and yields the derived query; the lexer half for the canonical spelling - "
-              "C12_roundtrip: str(q) of any well-typed query (nested filters, calls, all operators) lexes to such a token sequence; the converse direction in full - C04_sound: everything accepted is derivable "
-              "from the ABNF; for queries WITHOUT filters the headline in full - C03_complete_filter_free / C03_exact_filter_free (Proofs/LexComplete.v: forward simulation of the lexer along the token grammar; every spelling - "
-              "blanks wherever the lexical layer allows them, shorthand or brackets, either quote style with any escape form, any integer spelling - compiles to the query derived, and compile accepts exactly the spellings); "
-              "oracle correctness (in_rfc_sound/complete); number and string sublanguage lemmas of Props/C03.v. For queries with filters the headline C03_complete (derivable and valid -> accepted, for EVERY lexical variant: "
-              "blank space, quote styles, escapes, shorthand, number spellings) is stated there and NOT proved in full (partial): the lexer on every spelling of a token sequence is tied by correspondence. "
-              "Every generated valid query must compile, to the generating structure.")
-LEVEL_NOTE = "Partial: full grammar -> lexer+parser completeness is not proved. Trusted: Coq kernel, grammar transcription, renderer (self-checked), extraction and driver."
+LEVEL_TEXT = ("Proved, for every registry and integer range, relative to the spelling relation of Proofs/LexSpell.v (gaps decided by an abstract machine over token types): C03_complete_spelled - EVERY spelling of "
+              "EVERY token sequence the typed token grammar derives compiles, to the query derived: blanks wherever the lexical layer allows them, dot shorthand or brackets, either quote style with any escape form, "
+              "any integer spelling, operators / keywords / parentheses / nested filters / function calls with the lexer's three stacks threaded through the induction (Proofs/LexComplete.v, LexCompleteF.v: forward "
+              "simulation of the state machine with maximal-munch and FOLLOW facts; number literals with an exponent part are the one spelling not covered); C03_accepts_only_spellings and C04_sound - the converse: "
+              "compile accepts only spellings, and every spelling is derivable from the ABNF; C05_complete_tokens / C03_tokens_complete - the parser on every derivable token sequence; C03_canonical_text. "
+              "NOT proved (partial): that every valid string of the ABNF is a spelling in that sense (ABNF derivations -> token-grammar derivations), and exponent spellings; "
+              "every generated valid query, rendered in every lexical form, must compile to the generating structure.")
+LEVEL_NOTE = "Partial only in the link ABNF -> spellings and in exponent spellings. Trusted: Coq kernel, grammar transcription, the spelling relation (Proofs/LexSpell.v astep) as a reading of where the ABNF allows blanks, renderer (self-checked), extraction and driver."
 
 
 def nest(rng, depth):
